@@ -90,5 +90,29 @@ func (s *Struct) validate() error {
 			return fmt.Errorf("%v: %w", s.Def.Name, err)
 		}
 	}
+	if s.contains(s, make(map[*Struct]struct{})) {
+		return fmt.Errorf("%v: struct contains itself", s.Def.Name)
+	}
 	return nil
+}
+
+// contains returns true if the struct contains the target, directly or through other structs.
+func (s *Struct) contains(target *Struct, seen map[*Struct]struct{}) bool {
+	if _, ok := seen[s]; ok {
+		return false
+	}
+	seen[s] = struct{}{}
+
+	for _, field := range s.Fields.Values() {
+		typ := field.Type
+		if typ.Kind != KindStruct || typ.Ref == nil || typ.Ref.Struct == nil {
+			continue
+		}
+
+		next := typ.Ref.Struct
+		if next == target || next.contains(target, seen) {
+			return true
+		}
+	}
+	return false
 }
